@@ -47,7 +47,7 @@ Qed.
 (* ---------------------------------------------------------------------------------- token scanning *)
 Definition neutral (t : tok) : bool :=
   match t with
-  | Tgs _ | Trg _ _ | Tcs _ _ | Tscn _ _ | Tpat _ _ | Tfont _ | Ttag | Tprops _ | Tother _ => true
+  | Tgs _ _ | Trg _ _ | Tcs _ _ | Tscn _ _ | Tpat _ _ | Tfont _ | Ttag | Tprops _ | Tother _ => true
   | _ => false
   end.
 Lemma neutral_tstep t b : neutral t = true -> tstep t b = Some b.
@@ -122,7 +122,7 @@ Qed.
 Lemma ext_alpha1 st a i s : ext s (m_alpha1 st a i s).
 Proof.
   unfold m_alpha1. destruct (opt_eqb key_eqb (if st then calphas s else calpha s) (KA st a i)); [apply ext_refl|].
-  exists [Tgs (KA st a i)]. destruct st; simpl; auto.
+  exists [Tgs (KA st a i) (canon (KA st a i))]. destruct st; simpl; auto.
 Qed.
 Lemma ext_set_alpha a i st f s : ext s (m_set_alpha a i st f s).
 Proof.
@@ -151,7 +151,7 @@ Proof.
   exists [Tfont f]. simpl. auto.
 Qed.
 Lemma ext_set_state v s : ext s (m_set_state v s).
-Proof. exists [Tgs (KS (Z.of_nat (length (egs s))))]. simpl. auto. Qed.
+Proof. exists [Tgs (KS (Z.of_nat (length (egs s)))) v]. simpl. auto. Qed.
 
 (* ------------------------------------------------------------------------------------ the invariant *)
 Definition BInv (b : list bk) (s : st) : Prop :=
@@ -242,7 +242,7 @@ Proof.
     + assert (TV : in_text (vis true b) = false) by (rewrite in_text_vis; auto).
       destruct mcid; (split; [|simpl; auto]); unfold BInv; simpl; rewrite H1, M; simpl; simpl in TV; rewrite TV;
         (split; [reflexivity|]); (split; [auto|apply in_text_false_no_bt; auto]).
-    + split; [|auto]. unfold BInv. rewrite M, vis_cons_m. rewrite M in H1.
+    + split; [|auto]. unfold BInv. rewrite M, vis_cons_m.
       repeat split; auto. apply in_text_false_no_bt; auto.
   - (* EndMC *)
     destruct b as [|[] r]; try discriminate. inversion W; subst b'; clear W.
@@ -250,7 +250,7 @@ Proof.
     destruct (markon s) eqn:M.
     + split; [|simpl; auto]. unfold BInv. simpl. rewrite H1, M. simpl.
       split; [reflexivity|]. split; [simpl in H2; auto| eapply okb_tail; eauto].
-    + split; [|auto]. unfold BInv. rewrite M in *. rewrite vis_cons_m in H1.
+    + split; [|auto]. unfold BInv. rewrite M. rewrite vis_cons_m in H1.
       split; [exact H1|]. split; [simpl in H2; auto| eapply okb_tail; eauto].
   - (* Tok *)
     inversion W; subst b'. simpl. eexists. split; [reflexivity|]. split; [|reflexivity].
@@ -264,7 +264,7 @@ Proof.
   - inversion W; subst. eauto.
   - destruct (wstep o b) as [b1|] eqn:E; [|discriminate].
     destruct (step_BInv o b b1 s HI E) as (s1 & E1 & I1 & M1).
-    rewrite E1. destruct (IH b1 b' s1 I1 W) as (s' & R & I' & M'). exists s'. repeat split; auto. congruence.
+    rewrite E1. destruct (IH b1 b' s1 I1 W) as (s' & R & I' & M'). exists s'. split; [exact R|]. split; [exact I'|]. congruence.
 Qed.
 
 Lemma BInv_fresh mark d : BInv [] (fresh mark d).
@@ -279,35 +279,46 @@ Definition opens (k : bk) (t : tok) : bool :=
 Definition closes (k : bk) (t : tok) : bool :=
   match k with Bq => is_Q t | Bt => is_ET t | Bm => is_EMC t end.
 
+Lemma dyck_step_open o c d t l : o t = true -> dyck o c d (t :: l) = dyck o c (d + 1) l.
+Proof. intro H. simpl. rewrite H. reflexivity. Qed.
+Lemma dyck_step_close o c d t l : o t = false -> c t = true -> dyck o c d (t :: l) = (1 <=? d) && dyck o c (d - 1) l.
+Proof. intros H1 H2. simpl. rewrite H1, H2. reflexivity. Qed.
+Lemma dyck_step_skip o c d t l : o t = false -> c t = false -> dyck o c d (t :: l) = dyck o c d l.
+Proof. intros H1 H2. simpl. rewrite H1, H2. reflexivity. Qed.
+
+Ltac dy_open IH :=
+  rewrite dyck_step_open by reflexivity; cbn [countb bk_eqb] in IH; rewrite Nat2Z.inj_succ in IH;
+  rewrite <- Z.add_1_r in IH; exact IH.
+Ltac dy_close IH :=
+  rewrite dyck_step_close by reflexivity; cbn [countb bk_eqb]; rewrite Nat2Z.inj_succ;
+  match goal with |- (1 <=? Z.succ ?x) && _ = true =>
+    replace (1 <=? Z.succ x) with true by (symmetry; apply Z.leb_le; lia);
+    replace (Z.succ x - 1) with x by lia; exact IH end.
+Ltac dy_skip IH := rewrite dyck_step_skip by reflexivity; cbn [countb bk_eqb] in IH |- *; exact IH.
+
 Lemma tscan_dyck k l : forall b, tscan b l = Some [] -> dyck (opens k) (closes k) (Z.of_nat (countb k b)) l = true.
 Proof.
-  induction l as [|t l IH]; simpl; intros b H.
-  - inversion H; subst. reflexivity.
-  - destruct (tstep t b) as [b1|] eqn:E; [|discriminate]. specialize (IH b1 H).
+  induction l as [|t l IH]; intros b H.
+  - simpl in H. inversion H; subst. reflexivity.
+  - simpl in H. destruct (tstep t b) as [b1|] eqn:E; [|discriminate]. specialize (IH b1 H).
     destruct t; simpl in E;
-      try (inversion E; subst b1; destruct k; simpl; exact IH).
+      try (inversion E; subst b1; destruct k; dy_skip IH).
     + (* Tq *) destruct (in_text b); [discriminate|]. inversion E; subst b1.
-      destruct k; simpl in *; auto. rewrite Zpos_P_of_succ_nat in IH. replace (Z.of_nat (countb Bq b) + 1) with (Z.succ (Z.of_nat (countb Bq b))) by lia. exact IH.
+      destruct k; [dy_open IH|dy_skip IH|dy_skip IH].
     + (* TQ *) destruct b as [|[] b2]; try discriminate. inversion E; subst b1.
-      destruct k; simpl in *; auto. rewrite Zpos_P_of_succ_nat.
-      replace (1 <=? Z.succ (Z.of_nat (countb Bq b2))) with true by (symmetry; apply Z.leb_le; lia).
-      replace (Z.succ (Z.of_nat (countb Bq b2)) - 1) with (Z.of_nat (countb Bq b2)) by lia. exact IH.
+      destruct k; [dy_close IH|dy_skip IH|dy_skip IH].
     + (* TBT *) destruct (in_text b); [discriminate|]. inversion E; subst b1.
-      destruct k; simpl in *; auto. rewrite Zpos_P_of_succ_nat in IH. replace (Z.of_nat (countb Bt b) + 1) with (Z.succ (Z.of_nat (countb Bt b))) by lia. exact IH.
+      destruct k; [dy_skip IH|dy_open IH|dy_skip IH].
     + (* TET *) destruct b as [|[] b2]; try discriminate. inversion E; subst b1.
-      destruct k; simpl in *; auto. rewrite Zpos_P_of_succ_nat.
-      replace (1 <=? Z.succ (Z.of_nat (countb Bt b2))) with true by (symmetry; apply Z.leb_le; lia).
-      replace (Z.succ (Z.of_nat (countb Bt b2)) - 1) with (Z.of_nat (countb Bt b2)) by lia. exact IH.
-    + (* Tcm *) destruct (in_text b); [discriminate|]. inversion E; subst b1. destruct k; simpl; exact IH.
-    + (* Ttm *) destruct (in_text b); [|discriminate]. inversion E; subst b1. destruct k; simpl; exact IH.
+      destruct k; [dy_skip IH|dy_close IH|dy_skip IH].
+    + (* Tcm *) destruct (in_text b); [discriminate|]. inversion E; subst b1. destruct k; dy_skip IH.
+    + (* Ttm *) destruct (in_text b); [|discriminate]. inversion E; subst b1. destruct k; dy_skip IH.
     + (* TBMC *) destruct (in_text b); [discriminate|]. inversion E; subst b1.
-      destruct k; simpl in *; auto. rewrite Zpos_P_of_succ_nat in IH. replace (Z.of_nat (countb Bm b) + 1) with (Z.succ (Z.of_nat (countb Bm b))) by lia. exact IH.
+      destruct k; [dy_skip IH|dy_skip IH|dy_open IH].
     + (* TBDC *) destruct (in_text b); [discriminate|]. inversion E; subst b1.
-      destruct k; simpl in *; auto. rewrite Zpos_P_of_succ_nat in IH. replace (Z.of_nat (countb Bm b) + 1) with (Z.succ (Z.of_nat (countb Bm b))) by lia. exact IH.
+      destruct k; [dy_skip IH|dy_skip IH|dy_open IH].
     + (* TEMC *) destruct b as [|[] b2]; try discriminate. inversion E; subst b1.
-      destruct k; simpl in *; auto. rewrite Zpos_P_of_succ_nat.
-      replace (1 <=? Z.succ (Z.of_nat (countb Bm b2))) with true by (symmetry; apply Z.leb_le; lia).
-      replace (Z.succ (Z.of_nat (countb Bm b2)) - 1) with (Z.of_nat (countb Bm b2)) by lia. exact IH.
+      destruct k; [dy_skip IH|dy_skip IH|dy_close IH].
 Qed.
 
 Lemma nested_dyck l : nested l = true -> dyck_q l = true /\ dyck_text l = true /\ dyck_mc l = true.
